@@ -49,20 +49,20 @@ COMMENT_BODIES = [
 LINE_COMMENTS = ["// c", "//", "// /* not open", "// let x 1 ; g", "//* x */ g"]
 
 
-@st.composite
-def layout_cases(draw):
-    case = draw(gen.progs(gen.Cfg(max_depth=4, max_body=4, general_numbers=True)))
-    prog = case["prog"]
-    if draw(st.integers(0, 4)) == 0:
+def _layout_case(ch):
+    prog, _b = gen.make_prog(ch, gen.Cfg(max_depth=4, max_body=4, general_numbers=True))
+    if ch.int(0, 4) == 0:
         cases = []
-        for i in range(draw(st.integers(0, 3))):
-            bits = draw(st.text(alphabet="01", min_size=1, max_size=3))
-            kind = draw(st.sampled_from(["seq", "par"]))
-            cases.append([bits, [kind, [["g", "X", []]] * draw(st.integers(0, 2))]])
-        prog = dict(prog)
+        for i in range(ch.int(0, 3)):
+            bits = "".join(ch.pick("01") for _ in range(ch.int(1, 3)))
+            kind = ch.pick(["seq", "par"])
+            cases.append([bits, [kind, [["g", "X", []]] * ch.int(0, 2)]])
         prog["body"] = list(prog["body"]) + [["branch", cases]]
-    choices = draw(st.lists(st.integers(0, 255), min_size=48, max_size=48))
-    return {"prog": prog, "layout": choices}
+    return {"prog": prog, "layout": ch.ints(48, 0, 255)}
+
+
+def layout_cases():
+    return gen.cases(_layout_case)
 
 
 def _layout_text(prog, choices):
@@ -193,21 +193,16 @@ POOL = (
 )
 
 
-@st.composite
-def nearmiss_cases(draw):
-    case = draw(gen.progs(gen.Cfg(max_depth=3, max_body=3, max_lets=2, max_maps=2, max_macros=2, general_numbers=False)))
-    sepsel = draw(st.lists(st.integers(0, 5), min_size=16, max_size=16))
-    nmut = draw(st.sampled_from([0, 1, 1, 1, 1, 2]))
+def _nearmiss_case(ch):
+    prog, _b = gen.make_prog(ch, gen.Cfg(max_depth=3, max_body=3, max_lets=2, max_maps=2, max_macros=2, general_numbers=False))
     muts = []
-    for _ in range(nmut):
-        muts.append(
-            [
-                draw(st.sampled_from(["delete", "duplicate", "swap", "replace", "replace", "insert"])),
-                draw(st.integers(0, 10**6)),
-                draw(st.integers(0, len(POOL) - 1)),
-            ]
-        )
-    return {"prog": case["prog"], "seps": sepsel, "muts": muts}
+    for _ in range(ch.pick([0, 1, 1, 1, 1, 1, 2, 2])):
+        muts.append([ch.pick(["delete", "duplicate", "swap", "replace", "replace", "insert"]), ch.int(0, 10**6), ch.int(0, len(POOL) - 1)])
+    return {"prog": prog, "seps": ch.ints(16, 0, 5), "muts": muts}
+
+
+def nearmiss_cases():
+    return gen.cases(_nearmiss_case)
 
 
 def _token_stream(prog, sepsel):
